@@ -16,11 +16,14 @@ BUDGET = {"quick": 60, "thorough": 900}
 CHUNK = {"quick": 50, "thorough": 200}
 RULE = (
     "history = seeded sequence of 5-60 edits over {add, insert_at, remove_op, replace_op, unwrap_nodes, "
-    "group_one_qubit_gates, remove_identity, add_*_register} on 1-3 emitters, 0-3 photons, 0-2 classical bits; "
+    "group_one_qubit_gates, remove_identity, add_*_register, a rejected add (register index beyond the next free one: must "
+    "raise and change nothing), a register-adding edit on a copy (the original must not notice)} on 1-3 emitters, 0-3 "
+    "photons, 0-2 classical bits, starting empty or from a TimeReversedSolver circuit; "
     "indices are resolved modulo the candidates available at execution time. Distinct = distinct event-log digest; "
     "non-trivial = the history performed >=1 insert_at of a two-qubit op, >=1 removal and >=1 rewrite "
     "(unwrap/group/identity removal) that changed the circuit."
 )
+FAULTS_NOTE = "rejected_edit = an illegal edit that must raise and change nothing; object_reuse = a copy of the circuit is edited and the original re-inspected"
 PROBES = ["pair_refused_as_incompatible", "insert2_done", "group_changed", "unwrap_changed", "rmid_changed",
           "replace_done", "auto_register_added", "remove_two_qubit", "group_with_measurement_on_wire", "started_from_solver_circuit", "insert2_edges_listed_target_first"]
 REAL = ["graphiq.circuit.circuit_dag.CircuitDAG (all edit methods, find_incompatible_edges, sequence, validate)",
@@ -39,8 +42,8 @@ def gen_case(run_seed, tier):
     wl = stream(run_seed, "workload")
     ne, np_, nc = sz.randint(1, 3), sz.randint(0, 3), sz.randint(0, 2)
     length = sz.randint(5, 60 if tier == "thorough" else 40)
-    kinds = ["add", "ins", "rm", "rep", "unwrap", "group", "rmid", "reg"]
-    w = {"add": 6, "ins": 6, "rm": 3, "rep": 2, "unwrap": 1, "group": 1, "rmid": 1, "reg": 0.5}
+    kinds = ["add", "ins", "rm", "rep", "unwrap", "group", "rmid", "reg", "badadd", "copyreg"]
+    w = {"add": 6, "ins": 6, "rm": 3, "rep": 2, "unwrap": 1, "group": 1, "rmid": 1, "reg": 0.5, "badadd": 0.4, "copyreg": 0.4}
     # swarm: zero some weights
     for k in kinds:
         if sz.random() < 0.15:
@@ -66,6 +69,10 @@ def gen_case(run_seed, tier):
             hist.append(["rep", wl.randrange(1000), wl.randrange(1000), [wl.choice(gq.NAMES1) for _ in range(wl.randint(1, 3))]])
         elif k == "reg":
             hist.append(["reg", wl.choice("epc")])
+        elif k == "badadd":
+            hist.append(["badadd", wl.choice("ep"), wl.randrange(3), wl.randrange(7)])
+        elif k == "copyreg":
+            hist.append(["copyreg", wl.choice("epc"), wl.randrange(2)])
         else:
             hist.append([k])
     case = {"ne": ne, "np": np_, "nc": nc, "history": hist}
@@ -440,6 +447,29 @@ def run_case(case):
                 m.spec[n] = new
                 ctx.probe("replace_done")
                 ctx.log(step, "rep", n, new)
+            elif k == "badadd":
+                # a rejected edit: a one-qubit gate on a register index beyond the next free one must raise and leave
+                # the circuit (graph, indexes, register counts) exactly as it was
+                t = st[1]
+                spec = ["g1", gq.NAMES1[st[3] % 7], t, m.cnt[t] + 1 + st[2]]
+                try:
+                    circ.add(gq.make_op(spec))
+                except ValueError:
+                    ctx.fault("rejected_edit")
+                    ctx.log(step, "badadd", spec, "rejected")
+                else:
+                    ctx.violate("J6_register_gap_accepted", step, f"add of {spec} was accepted although register {t}{m.cnt[t]} does not exist", {"after": "badadd"})
+                    break
+            elif k == "copyreg":
+                # edit a copy (register-adding edit on the copy): the original must not notice
+                t = st[1]
+                c2 = circ.copy()
+                if st[2]:
+                    {"e": c2.add_emitter_register, "p": c2.add_photonic_register, "c": c2.add_classical_register}[t]()
+                elif t != "c":
+                    c2.add(gq.make_op(["g1", "H", t, m.cnt[t]]))
+                ctx.fault("object_reuse")
+                ctx.log(step, "copyreg", t, st[2])
             elif k == "reg":
                 t = st[1]
                 {"e": circ.add_emitter_register, "p": circ.add_photonic_register, "c": circ.add_classical_register}[t]()
